@@ -8,7 +8,9 @@ import (
 	btpb "cloud.google.com/go/bigtable/apiv2/bigtablepb"
 
 	"verif/bt/drive"
+	"verif/bt/gen"
 	"verif/bt/model"
+	"verif/common"
 )
 
 func workers() int {
@@ -84,3 +86,41 @@ func checkRow(cl btpb.BigtableClient, table, key string, m *model.Table) string 
 }
 
 func joinLines(ss []string) string { return strings.Join(ss, "\n") }
+
+// noise sends one unrelated request to a second, wide table ("noise": 3 rows x 40 columns) of the same server. Its
+// results are ignored: the point is that whatever the server remembers from one request (compiled patterns, scratch
+// rows, decoded-row or column caches, iterators) is filled by traffic for ANOTHER table between two requests of the
+// program under test.
+type noise struct {
+	table string
+	ctx   gen.FilterCtx
+}
+
+func newNoise(srv *drive.Srv) *noise {
+	n := &noise{table: drive.MustTable(srv.Admin, "noise", "f1", "f2", "g"), ctx: gen.FilterCtx{Keys: gen.Keys, Fams: []string{"f1", "f2", "g"}, Quals: gen.Quals, Vals: gen.Vals, TSs: []int64{0, 1000, 2000, 3000}, MaxCells: 6}}
+	for _, k := range []string{"a", "ab", "n"} {
+		var muts []model.Mut
+		for c := 0; c < 40; c++ {
+			muts = append(muts, model.Mut{Kind: model.SetCell, Fam: "f1", Qual: fmt.Sprintf("c%02d", c), TS: 1000, Val: "noise"})
+		}
+		muts = append(muts, model.Mut{Kind: model.SetCell, Fam: "f2", Qual: "q", TS: 2000, Val: "\x00\x00\x00\x00\x00\x00\x00\x07"})
+		drive.MutateRow(srv.Data, n.table, k, muts)
+	}
+	return n
+}
+
+func (n *noise) send(r *common.Rand, srv *drive.Srv) {
+	key := common.Pick(r, []string{"a", "ab", "n", "zz"})
+	switch r.Intn(5) {
+	case 0:
+		drive.MutateRow(srv.Data, n.table, key, gen.Mutations(r, gen.Opts{InvalidPct: 10}, 1, 4))
+	case 1:
+		drive.CheckAndMutate(srv.Data, n.table, key, gen.Tree(r, n.ctx, 3, 4), gen.Mutations(r, gen.Opts{}, 0, 2), gen.Mutations(r, gen.Opts{}, 0, 2))
+	case 2:
+		drive.ReadModifyWrite(srv.Data, n.table, key, gen.Rules(r, 10, 1, 3))
+	case 3:
+		drive.ReadRows(srv.Data, &btpb.ReadRowsRequest{TableName: n.table, Filter: drive.FilterToProto(gen.Tree(r, n.ctx, 3, 4)), RowsLimit: int64(r.Intn(3))})
+	default:
+		drive.ReadRow(srv.Data, n.table, key)
+	}
+}
